@@ -25,14 +25,17 @@ CLAIMED = {
                     "record), every collection loop is proved to offer each failing core result exactly once, in order, carrying the result's fields, the component "
                     "loop loses and invents nothing, and the lazy/eager agreement follows as a lemma over those contracts; the same for the polars container; which cells a "
                     "failing check reports (postprocess_field: exactly the rows whose output is False, also under repeated labels); every run_checks of both back ends yields one "
-                    "result per declared check. The reshape/consolidate pipelines are not under contract.",
+                    "result per declared check; the polars lazy report lists one row per failure case of every collected error, none merged (failure_cases_metadata over height-only frames). "
+                    "The pandas reshape/consolidate pipelines are not under contract.",
             "note": COMMON_NOTE + "reshape_failure_cases / consolidate_failure_cases are opaque (pandas unstack/concat pipelines); SchemaErrors.__init__ is used through its contract."},
     "C03": {"text": "Lineage obligations on the real bodies of DataFrameSchemaBackend.validate, ArraySchemaBackend.validate and SeriesSchema.validate: the object that is "
                     "checked and returned is the result of the whole parser chain in order (each parser under its interface contract); drop_invalid_rows row algebra "
                     "proved for pandas (all error counts, closed-form loop invariant) and polars (all frames, <= 3 errors); the polars container (parsers in documented order, "
                     "sub-sample taken from the parsed frame, result is the parsed frame) and column back end; polars add_missing_columns (declared dtype, nothing lost, "
                     "nothing else added), set_default (present columns only) and strict_filter_columns on frames that hold columns column_info does not list (the added ones are kept). "
-                    "Idempotence of the individual parsers (library casts) is not decided. drop_invalid_rows combined with head/tail/sample on polars is refuted (known finding).",
+                    "The custom-parser pipeline (run_parsers of both pandas back ends for 0-3 parsers, run_parser, Parser.__call__, PandasParserBackend) and the write-back of parsed columns by "
+                    "ColumnBackend.validate. Idempotence of the individual parsers (library casts) is not decided. Refuted, known findings: polars drop_invalid_rows with head/tail/sample; "
+                    "a column-level drop_invalid_rows inside a DataFrameSchema; column parsers under sub-sampling.",
             "note": COMMON_NOTE + "The parsers add_missing_columns/strict_filter_columns/set_defaults/coerce_dtype are replaced by interface contracts (return a derived table or raise "
                     "SchemaError(s)); dtype coercion semantics are pandas/polars facts (C10)."},
     "C04": {"text": "Ownership/frame obligations on every validate entry point of the pandas back end (container, array, column, index, series) and the polars API: with "
@@ -56,7 +59,8 @@ CLAIMED = {
                     "callback-gated two-thread replays; everything else is proved. Lazy back-end registration: nothing shared is written before the last register_backend "
                     "call (publish order), every declared type gets its back ends, register_backend is an idempotent publish; writes to live module-level containers of pandera "
                     "are tracked; Dispatcher.__call__ (the process-wide object behind every built-in check) only reads; DataFrameModel.to_schema binds only finished objects to the "
-                    "class (no in-place write after publication; the same rule is part of the strict frame everywhere). Schedules themselves are not enumerated.",
+                    "class (no in-place write after publication; the same rule is part of the strict frame everywhere); structural inventory: the functions that write module-level state and the "
+                    "memoised functions of all of pandera are exactly the documented ones. Schedules themselves are not enumerated.",
             "note": COMMON_NOTE + "pandas/polars/numpy are assumed thread-compatible on distinct data objects; liveness and deadlock are out of reach of contracts."},
     "C08": {"text": "All polars built-in checks are proved against the same spec functions as their pandas twins, and for the 9 comparison/membership checks the REAL "
                     "pandas and polars check back ends are executed side by side symbolically and proved to reach the same verdict for every column, bounds and "
@@ -74,7 +78,7 @@ CLAIMED = {
     "C10": {"text": "The wrappers are proved: try_coerce (pandas, numpy) returns coerce's result, propagates/wraps errors into a ParserError carrying exactly the "
                     "element-wise failure cases; numpy_pandas_coercible is element-wise 'coerce_value does not raise'; schema-level ParserError -> "
                     "SchemaError(DATATYPE_COERCION) with the same failure cases; polars coercible/failure-case row algebra incl. polars_coerce_failure_cases under every way polars can "
-                    "refuse the cast (mask over the data rows, failure cases == masked-out rows); polars column / container coercion helpers. The per-dtype casting behaviour "
+                    "refuse the cast (mask over the data rows, failure cases == masked-out rows); polars column / container coercion helpers; polars try_coerce evaluates the cast before returning. The per-dtype casting behaviour "
                     "(the heart of the property) is a library fact: covered only by a bounded run-time contract on the real try_coerce of the registered types.",
             "note": COMMON_NOTE + "coerce / coerce_value of each data type are S-callbacks in the proofs; the non-strict polars cast is an uninterpreted 'castable' predicate. "
                     "Bounded part: 40 (quick) / 400 (thorough) containers per data type, length <= 5."},
